@@ -33,6 +33,7 @@
 #include <upipe/uprobe_upump_mgr.h>
 #include <upipe/uprobe_uref_mgr.h>
 #include <upipe/uprobe_ubuf_mem.h>
+#include <upipe/uprobe_ubuf_mem_pool.h>
 #include <upipe/uprobe_uclock.h>
 #include <upipe/upipe.h>
 #include <upipe/urequest.h>
@@ -185,7 +186,7 @@ static const char *op_name(int code)
     return code > 0 && code < OP__N ? n[code] : "?";
 }
 
-enum { CFG_PROP = 0, CFG_TYPE, CFG_POOL, CFG_FAULTS, CFG_PROVIDE, CFG_TWIN, CFG_ALLOCDEF, CFG_FAULTSWEEP, CFG_RELAY };
+enum { CFG_PROP = 0, CFG_TYPE, CFG_POOL, CFG_FAULTS, CFG_PROVIDE, CFG_TWIN, CFG_ALLOCDEF, CFG_FAULTSWEEP, CFG_RELAY, CFG_POOLPROV };
 
 enum { F_ORDER = 1, F_SAME_PAYLOAD = 2, F_IMMEDIATE = 4,
        F_COMPLETE = 8, /* documented never to drop: everything accepted comes out once the loop and the clock ran */
@@ -699,7 +700,10 @@ static void env_setup(void)
     if (provide() & 2)
         chain = uprobe_uref_mgr_alloc(chain, uref_mgr);
     if (provide() & 4)
-        chain = uprobe_ubuf_mem_alloc(chain, umem, depth[pool], depth[pool]);
+        /* (the pooled provider hands out the same manager again for the same
+         * format: an answer that changes nothing) */
+        chain = plan->cfg[CFG_POOLPROV] ? uprobe_ubuf_mem_pool_alloc(chain, umem, depth[pool], depth[pool])
+                                        : uprobe_ubuf_mem_alloc(chain, umem, depth[pool], depth[pool]);
     if (provide() & 8)
         chain = uprobe_upump_mgr_alloc(chain, upump_mgr);
     if (provide() & 16)
@@ -952,7 +956,7 @@ static struct uref *typed_def(uint64_t which, uint64_t x, int *kind_p)
         fd = uref_sound_flow_alloc_def(uref_mgr, "s16.", 2, 4);
         if (fd != NULL) {
             uref_sound_flow_add_plane(fd, "lr");
-            uref_sound_flow_set_rate(fd, 48000);
+            uref_sound_flow_set_rate(fd, (x & 4) ? 44100 : 48000);
             if (x & 16) uref_sound_flow_set_samples(fd, 32);
         }
         *kind_p = K_S16;
@@ -961,7 +965,7 @@ static struct uref *typed_def(uint64_t which, uint64_t x, int *kind_p)
         fd = uref_sound_flow_alloc_def(uref_mgr, "s32.", 2, 8);
         if (fd != NULL) {
             uref_sound_flow_add_plane(fd, "lr");
-            uref_sound_flow_set_rate(fd, 48000);
+            uref_sound_flow_set_rate(fd, (x & 4) ? 44100 : 48000);
         }
         *kind_p = K_S32;
         break;
@@ -1937,6 +1941,7 @@ static void gen(const char *pr, struct sim_rng *r, struct sim_plan *p)
     p->cfg[CFG_PROVIDE] = sim_rng_chance(r, 9, 10) ? 31 : sim_rng_below(r, 32);
     p->cfg[CFG_ALLOCDEF] = sim_rng_below(r, 128) | (sim_rng_chance(r, 1, 6) ? (sim_rng_chance(r, 1, 2) ? 256 : 512) : 0);
     p->cfg[CFG_RELAY] = sim_rng_chance(r, 1, 3);
+    p->cfg[CFG_POOLPROV] = sim_rng_chance(r, 1, 3);
     int n = 3 + (int)sim_rng_below(r, 24);
     if ((p->cfg[CFG_PROP] == 1 || p->cfg[CFG_PROP] == 4) && !p->cfg[CFG_TWIN] && sim_rng_chance(r, 1, 8)) {
         /* single-fault sweep over a short fault-free history */
@@ -1992,7 +1997,9 @@ static void gen(const char *pr, struct sim_rng *r, struct sim_plan *p)
             else sim_plan_add(p, 0, OP_REQ_PROVIDE, sim_rng_below(r, NSINK), sim_rng_below(r, 100000), 0, 0, 0, 0);
         } else if (p->cfg[CFG_PROP] == 20 && c >= 30 && c < 40) sim_plan_add(p, 0, c < 35 ? OP_GETTER : OP_OPTION, sim_rng_below(r, 3), sim_rng_below(r, 8), 0, 0, 0, 0);
         else if (c < 40) sim_plan_add(p, 0, OP_INPUT, sim_rng_below(r, 200), sim_rng_below(r, 512), sim_rng_below(r, 64), sim_rng_below(r, 4), 0, f);
-        else if (c < 52) sim_plan_add(p, 0, OP_FLOW_DEF, sim_rng_below(r, NDEFS), sim_rng_below(r, 64), 0, 0, 0, f);
+        /* (half of them a variant of what was negotiated first: same kind, other attributes, possibly incomplete) */
+        else if (c < 52) sim_plan_add(p, 0, OP_FLOW_DEF, sim_rng_chance(r, 1, 2) ? (first + (int)sim_rng_below(r, 3) * 3) % NDEFS : sim_rng_below(r, NDEFS),
+                                      sim_rng_below(r, 64), 0, 0, 0, f);
         else if (c < 64) sim_plan_add(p, 0, OP_RUN, sim_rng_below(r, 16), 0, 0, 0, 0, 0);
         else if (c < 72) sim_plan_add(p, 0, OP_ADVANCE, sim_rng_below(r, 27000000), 0, 0, 0, 0, 0);
         else if (c < 77) sim_plan_add(p, 0, OP_FLUSH, 0, 0, 0, 0, 0, 0);
